@@ -31,3 +31,6 @@ def run(ctx):
     from .common import authority_function, claim_in
     claim_in(ctx, ("SH5",), authority_function, "the functions that split and assemble the authority")
     port.sh5(ctx)
+    from ..rules import parser
+    parser.split_netloc_verbatim(ctx)       # the splitter the parser and the lazy accessors share only cuts: applying it twice changes nothing
+    immut.im16(ctx)     # every cached property stores under its own name: a pickled/copied twin cannot read another property's value
